@@ -86,6 +86,12 @@ func gcsExecCtx(ctx context.Context, d *gcs.Driver, o GOp) gcsOut {
 	return out
 }
 
+// c07GenOf: a literal per-source generation ("" = none).
+func c07GenOf(s string) int64 {
+	n, _ := strconv.ParseInt(s, 10, 64)
+	return n
+}
+
 // gcsExec performs one operation (conditions are concrete numbers) and decodes what came back.
 func gcsExec(d *gcs.Driver, o GOp) gcsOut {
 	var r gcs.HTTPResp
@@ -118,7 +124,7 @@ func gcsExec(d *gcs.Driver, o GOp) gcsOut {
 	case "Compose":
 		var srcs []gcs.ComposeSrc
 		for _, s := range o.Srcs {
-			srcs = append(srcs, gcs.ComposeSrc{Name: s.Name})
+			srcs = append(srcs, gcs.ComposeSrc{Name: s.Name, GenMatch: c07GenOf(s.Gen)})
 		}
 		r = d.Do(gcs.ReqCompose(o.Bucket, o.Name, srcs, &o.Meta, o.Conds))
 	case "Copy":
@@ -214,7 +220,7 @@ func gcsModelStep(m *gcs.Model, o GOp, out gcsOut) (bool, *gcs.Model) {
 	case "Compose":
 		var specs []gcs.SrcSpec
 		for _, s := range o.Srcs {
-			specs = append(specs, gcs.SrcSpec{Name: s.Name})
+			specs = append(specs, gcs.SrcSpec{Name: s.Name, GenMatch: c07GenOf(s.Gen)})
 		}
 		e := n.ExpectCompose(o.Bucket, o.Name, specs, &o.Meta, o.Conds)
 		if !okStatus(e) {
@@ -351,6 +357,8 @@ func c07Op(name string, g, mg int64) GOp {
 		return GOp{Kind: "Copy", Bucket: "b", Name: "x", DstBucket: "b2", DstName: "z"}
 	case "CPxto":
 		return GOp{Kind: "Copy", Bucket: "b2", Name: "y", DstBucket: "b", DstName: "x"}
+	case "Cfromg": // the source is pinned to the generation it has before the threads start
+		return GOp{Kind: "Compose", Bucket: "b", Name: "z", Srcs: []GSrc{{Name: "x", Gen: gs}, {Name: "y"}}, Meta: gcs.ObjMeta{ContentType: "text/cz"}}
 	case "Cfrom":
 		return GOp{Kind: "Compose", Bucket: "b", Name: "z", Srcs: []GSrc{{Name: "x"}, {Name: "x"}}, Meta: gcs.ObjMeta{ContentType: "text/cz"}}
 	case "R":
@@ -521,7 +529,7 @@ func replayC07(c *fw.Ctx, raw json.RawMessage) (string, string) {
 func runC07(c *fw.Ctx) {
 	var scen []c07Param
 	absentOps := []string{"U0", "U0m", "C0", "CPto", "CPxto", "R", "M", "D"}
-	presentOps := []string{"Ug", "Ugr", "U", "Pm", "Pm2", "P", "Dg", "D", "Cg", "CPto", "CPfrom", "CPxfrom", "CPxto", "Cfrom", "R", "M"}
+	presentOps := []string{"Ug", "Ugr", "U", "Pm", "Pm2", "P", "Dg", "D", "Cg", "CPto", "CPfrom", "CPxfrom", "CPxto", "Cfrom", "Cfromg", "R", "M"}
 	for _, store := range []string{"mem", "file"} {
 		for i := range absentOps {
 			for j := i; j < len(absentOps); j++ {
